@@ -251,12 +251,38 @@ class Fn2(c2lean.Fn):
         self.loops = []            # texts of the loop definitions, in order of completion
         self.nloops = 0
         self.rmw = []              # write buffers that are also read: extra `buf0` parameter
+        self.elem_width = {}       # parameter buffer -> element width of every access so far
         self.given = []            # struct out-params tested with `if (meta)`
         self.struct_outs = {}      # struct pointer name -> [field,…] in order of first appearance
         self.local_arrays = []     # "@arr:<name>" keys of local arrays
+        self.reclassify_aliased_outs()
         self.reclassify_passed_outs()
         self.uses_fuel = self.has_real_loop(self.body) or self.calls_fuel(self.body)
         self.scan_struct_outs()
+
+    def reclassify_aliased_outs(self):
+        """a `void *`/pointer parameter whose only use is to initialise a local pointer (`T *dst = (T *)_dst;`) is a
+        buffer viewed through that local, not a single out-parameter"""
+        for nm in list(self.out_params):
+            hit = []
+
+            def walk(n):
+                if not isinstance(n, dict):
+                    return
+                if n.get("kind") == "VarDecl" and parse_type(n.get("type", {})).kind == "ptr" and n.get("inner"):
+                    e = n["inner"][-1]
+                    while isinstance(e, dict) and e.get("kind") in ("ImplicitCastExpr", "CStyleCastExpr", "ParenExpr"):
+                        e = e["inner"][-1]
+                    if isinstance(e, dict) and e.get("kind") == "DeclRefExpr" and \
+                            e.get("referencedDecl", {}).get("name") == nm:
+                        hit.append(1)
+                for c in n.get("inner", []) or []:
+                    walk(c)
+
+            walk(self.body)
+            if hit:
+                self.out_params.remove(nm)
+                self.write_bufs.append(nm)
 
     def reclassify_passed_outs(self):
         """a pointer parameter that is only handed on to translated callees as THEIR out-parameter is an out-parameter"""
@@ -385,10 +411,14 @@ class Fn2(c2lean.Fn):
         if isinstance(buf, str) and buf.startswith("@arr:"):
             rd = f"(rdw (fun _ => 0) {self.wexpr(env, buf)} {paren(str(pos))})"
         elif buf in self.write_bufs:
+            if ty.kind in "ui":
+                self.note_elem(buf, ty.width)
             if buf not in self.rmw:
                 self.rmw.append(buf)
             rd = f"(rdw {buf}0 {self.wexpr(env, buf)} {paren(str(pos))})"
         else:
+            if ty.kind in "ui" and isinstance(buf, str):
+                self.note_elem(buf, ty.width)
             rd = f"({buf} {paren(str(pos))})"
         if ty.kind == "i":
             return V(f"(sx {ty.width} {rd})", ty)
@@ -850,6 +880,31 @@ class Fn2(c2lean.Fn):
             if cn in ("memcpy", "__builtin_memcpy"):
                 args = s["inner"][1:]
                 dst, src = self.expr(args[0], env), self.expr(args[1], env)
+                # `memcpy(&local, p, sizeof(T))` / `memcpy(p, &local, sizeof(T))` with `T *p` and `T local`: a copy of one
+                # whole element between objects of the same size = `local = *p` / `*p = local`
+                ety_d, ety_s = self.pointee_before_cast(args[0]), self.pointee_before_cast(args[1])
+                nbv = None
+                try:
+                    nbv = const_int(self.expr(args[2], env).s)
+                except Unsupported:
+                    nbv = None
+                if nbv is not None and ety_d is not None and ety_s is not None and ety_d.kind in "ui" and ety_s.kind in "ui" \
+                        and ety_d.width == ety_s.width == 8 * nbv and nbv > 1:
+                    if dst.addr_of is not None and dst.ptr is None and src.ptr is not None \
+                            and not str(src.ptr[0]).startswith("@"):
+                        self.note_elem(src.ptr[0], ety_s.width)
+                        val = self.read_at(env, src.ptr[0], src.ptr[1], Ty("u", ety_s.width))
+                        pre = self.flush_lets(env)
+                        cur = env.vars[dst.addr_of]
+                        nm = env.fresh(dst.addr_of, lty(cur.ty))
+                        env.vars[dst.addr_of] = V(nm, cur.ty)
+                        return pre + f"let {nm} : Nat := {val.s}\n"
+                    if src.addr_of is not None and src.ptr is None and dst.ptr is not None \
+                            and not str(dst.ptr[0]).startswith("@") and dst.ptr[0] in self.write_bufs:
+                        self.note_elem(dst.ptr[0], ety_d.width)
+                        loc = env.vars[src.addr_of]
+                        return self.flush_lets(env) + self.store_at(env, dst.ptr[0], dst.ptr[1], V(loc.s, Ty("u", ety_d.width)),
+                                                                    Ty("u", ety_d.width))
                 if (dst.ptr is not None or dst.addr_of is not None) and (src.ptr is not None or src.addr_of is not None) \
                         and not (dst.ptr is not None and dst.ptr[0] in self.out_params and src.addr_of is not None):
                     if dst.addr_of is not None and dst.ptr is None:
@@ -884,6 +939,25 @@ class Fn2(c2lean.Fn):
                 return self.simple(inner[-1], env)
             return ""
         raise Unsupported(f"statement kind {k}")
+
+    def pointee_before_cast(self, n):
+        """element type of a pointer argument as written, before the implicit conversion to `void *`"""
+        while isinstance(n, dict):
+            ty = parse_type(n["type"]) if "type" in n else None
+            if ty is not None and ty.kind == "ptr" and ty.elem is not None and ty.elem.kind in "ui":
+                return ty.elem
+            if n.get("kind") in ("ImplicitCastExpr", "CStyleCastExpr", "ParenExpr") and n.get("inner"):
+                n = n["inner"][-1]
+            else:
+                return None
+        return None
+
+    def note_elem(self, buf, width):
+        """a parameter buffer is modelled as a function from element index to element: every access to it must use one
+        element width"""
+        have = self.elem_width.setdefault(buf, width)
+        if have != width:
+            raise Unsupported(f"buffer {buf} accessed with element widths {have} and {width}")
 
     def bind_ptr(self, env, cname, ty, ptr):
         """a pointer variable: symbolic offsets are bound to a name so that they can be loop state"""
@@ -1074,6 +1148,8 @@ class Fn2(c2lean.Fn):
             return f"let {new} : Nat := setByte {cur.s} {paren(str(pos))} {paren(v.s)}\n"
         if buf not in self.write_bufs and not (isinstance(buf, str) and buf.startswith("@arr:")):
             raise Unsupported(f"store into {buf}, which is not a write buffer")
+        if ty.kind in "ui" and not (isinstance(buf, str) and buf.startswith("@arr:")):
+            self.note_elem(buf, ty.width)
         new = env.fresh(f"{buf.replace('@arr:', '')}_b")
         w = env.writes.setdefault(buf, W())
         w.items.append((pos, new))
@@ -1762,6 +1838,19 @@ TARGETS2 = {
     ],
     "CAdaptive": [
         ("varintAdaptive.c", "varintAdaptiveCheckSorted", "adaptiveCheckSorted"),
+    ],
+    # the template header src/varintPacked.h as instantiated by harness/vw_packed.c (12-bit values, uint32_t slots)
+    "CPacked": [
+        ("harness/vw_packed.c", "varintPacked12Get", "packed12Get"),
+        ("harness/vw_packed.c", "varintPacked12Set", "packed12Set"),
+        ("harness/vw_packed.c", "varintPacked12SetHalf", "packed12SetHalf"),
+        ("harness/vw_packed.c", "varintPacked12SetIncr", "packed12SetIncr"),
+        ("harness/vw_packed.c", "varintPacked12BinarySearch", "packed12BinarySearch"),
+        ("harness/vw_packed.c", "varintPacked12Member", "packed12Member"),
+        ("harness/vw_packed.c", "varintPacked12Insert", "packed12Insert"),
+        ("harness/vw_packed.c", "varintPacked12InsertSorted", "packed12InsertSorted"),
+        ("harness/vw_packed.c", "varintPacked12Delete", "packed12Delete"),
+        ("harness/vw_packed.c", "varintPacked12DeleteMember", "packed12DeleteMember"),
     ],
 }
 
